@@ -487,6 +487,69 @@ fn consumers(cx: &CaseCtx, rep: &mut Report) {
 			}
 		}
 	}
+	// a stream is lazy: it may be put together under one runtime (a blocking helper with a short-lived runtime of
+	// its own) and drained later under another one, after the first is gone
+	if n <= 1000 {
+		let built_elsewhere = guard::catch(|| {
+			let (a, b) = {
+				let rt = tokio::runtime::Builder::new_multi_thread().worker_threads(2).enable_all().build().unwrap();
+				let cs2 = cs.clone();
+				let items2 = items.clone();
+				let pair = rt.block_on(async move {
+					let a = TileStream::from_coord_iter_parallel(cs2.into_iter(), |c| Some(input_blob(&c)));
+					let b = TileStream::from_vec(items2).map_blob_parallel(|b| b);
+					(a, b)
+				});
+				drop(rt);
+				pair
+			};
+			guard::block_on_mt(4, async move { (a.collect().await, b.collect().await) })
+		});
+		rep.eval();
+		match built_elsewhere {
+			Err(p) => rep.violation(&p.signature("tile_stream_two_runtimes"), "a stream built under one runtime and drained under another panicked", json!({"n": n, "panic": p.describe()})),
+			Ok((mut a, mut b)) => {
+				rep.count("streams_built_and_drained_under_different_runtimes", 2);
+				a.sort_by_key(|(c, _)| (c.y, c.x));
+				b.sort_by_key(|(c, _)| (c.y, c.x));
+				if !same(&a, &items) {
+					rep.violation("FromCoords|two-runtimes|items", "a generate-from-coordinates stream built under one runtime and drained under another lost or changed items", json!({"n": n, "delivered": a.len()}));
+				}
+				if !same(&b, &items) {
+					rep.violation("Map|two-runtimes|items", "a parallel map built under one runtime and drained under another lost or changed items", json!({"n": n, "delivered": b.len()}));
+				}
+			}
+		}
+	}
+	// the same coordinate may occur more than once in a stream (overlapping sources): those are separate items
+	if n >= 2 {
+		let mut dup: Vec<(TileCoord3, Blob)> = vec![];
+		for (i, (c, b)) in items.iter().enumerate().take(200) {
+			dup.push((*c, b.clone()));
+			if i % 3 == 1 {
+				dup.push((*c, Blob::from(format!("second item at the same coordinate #{i}"))));
+			}
+		}
+		for size in [1usize, 2, 3, 5, 1000] {
+			let r = guard::catch(|| {
+				guard::block_on(async {
+					let mut seen: Vec<(TileCoord3, Blob)> = vec![];
+					TileStream::from_vec(dup.clone()).for_each_buffered(size, |v| seen.extend(v)).await;
+					seen
+				})
+			});
+			rep.eval();
+			match r {
+				Err(p) => rep.violation(&p.signature("for_each_buffered"), "buffered consumer panicked", json!({"n": dup.len(), "buffer": size, "panic": p.describe()})),
+				Ok(seen) => {
+					rep.count("buffered_runs_with_repeated_coordinates", 1);
+					if !same(&seen, &dup) {
+						rep.violation("for_each_buffered|items|repeated-coordinates", "buffered consumer did not see every item exactly once (items sharing a coordinate)", json!({"items": dup.len(), "seen": seen.len(), "buffer": size}));
+					}
+				}
+			}
+		}
+	}
 	// the remaining consumers and sequential stages
 	let r = guard::catch(|| {
 		guard::block_on(async {
